@@ -30,6 +30,11 @@ def big_meshes(tier, seed):
                 for role in ("s", "m"):
                     out.append(families.mesh(rng, m, n, algo, False, sides=sides, dir_end="dst", side_role=role,
                                              undirected_sides=False))
+    # XY-routed meshes: outside the property's quantifier (nothing is decided on them), but C09_xy_conditions_sound
+    # (XYCdg.v) is a theorem about them; its hypotheses are evaluated on these and counted (side_xy_mesh_*)
+    for (m, n, sides) in ([(2, 2, ("W",)), (3, 2, ("W", "E", "S", "N")), (4, 3, ())] if tier == "quick" else
+                          [(m, n, sd) for m in (1, 2, 3, 5) for n in (1, 2, 4) for sd in side_sets]):
+        out.append(families.mesh(rng, m, n, "XY", rng.random() < 0.3, sides=sides))
     return [(d, t) for d, t in out if d is not None]
 
 
